@@ -1,7 +1,7 @@
-(* Checker used by the harness-generated case files of C04: runs the model (Format.v) on a case and
+(* Checker used by the harness-generated case files of C04: runs the model (Fmt.v) on a case and
    compares with what the real implementation and the real format library produced. *)
 From Coq Require Import List String Ascii ZArith Bool.
-From Verif Require Import Format.
+From Verif Require Import Fmt.
 Import ListNotations.
 Open Scope string_scope.
 
@@ -12,12 +12,17 @@ Inductive dec_obs :=
 
 Record fcase := {
   c_fmt : fmt;
+  c_env : env;                                (* class table (inherited fields flattened) *)
   c_ty : ty;
   c_val : pv;
   c_tab : ltab;                               (* stdlib renderings of the leaves of c_val *)
+  c_utab : utab;                              (* renderings by the user strategies *)
+  c_user : list (lkind * sentry);             (* the caller's dialect (serialization_strategy) *)
+  c_fmt_entries : list (lkind * sentry);      (* impl: serialization_strategy of the format's own dialect *)
+  c_fmt_omit : bool;                          (* impl: the format's own dialect sets omit_none = True *)
   c_unrepr : list (lkind * string);           (* native leaves the format cannot carry (aware time, odd offset) *)
   c_pack : bv;                                (* impl: tree handed to the format library (identity encoder) *)
-  c_basic : bv;                               (* impl: to_dict() *)
+  c_basic : bv;                               (* impl: to_dict(dialect=caller's dialect) *)
   c_insub : bool;                             (* harness: value inside F's representable subset *)
   c_parsed : option bv;                       (* library: parse_F(encode_F v), when inside the subset *)
   c_dec : dec_obs;                            (* impl: decode_F(encode_F v) *)
@@ -28,27 +33,35 @@ Definition leaf_repr_of (bad: list (lkind * string)) (F: fmt) (k: lkind) (p: str
 
 Definition res_bv_is (r: res bv) (b: bv) : bool := match r with Ok x => bv_sim x b && bv_sim b x | Err _ => false end.
 
-Definition approxb (render: lkind -> string -> string) (F: fmt) (parsed basic: bv) : bool :=
-  let rhs := if (dialect_of F).(d_omit_none) then drop_nulls basic else basic in
+Definition approxb (render: lkind -> string -> string) (omit: bool) (parsed basic: bv) : bool :=
+  let rhs := if omit then drop_nulls basic else basic in
   bv_sim (render_natives render parsed) rhs && bv_sim rhs (render_natives render parsed).
 
 Definition case_ok (c: fcase) : bool :=
   let F := c.(c_fmt) in
+  let E := c.(c_env) in
   let render := tab_render c.(c_tab) in
   let parse_leaf := tab_parse c.(c_tab) in
-  res_bv_is (pack render (dialect_of F) c.(c_ty) c.(c_val)) c.(c_pack)
-  && res_bv_is (pack render basic_dl c.(c_ty) c.(c_val)) c.(c_basic)
-  && wfb c.(c_ty)
+  let urender := utab_render c.(c_utab) in
+  let uparse := utab_parse c.(c_utab) in
+  let X := udial_of c.(c_user) in
+  let ls := eff_lsem F X in
+  (* the model's table of the format dialects is what the code declares *)
+  forallb (fun k => sentry_eqb (fmt_entry F k) (udial_of c.(c_fmt_entries) k)) all_kinds
+  && Bool.eqb (fmt_omit F) c.(c_fmt_omit)
+  && res_bv_is (pack render urender E ls c.(c_val) "" c.(c_ty)) c.(c_pack)
+  && res_bv_is (pack render urender E (user_lsem X) c.(c_val) "" c.(c_ty)) c.(c_basic)
+  && wf_env E && wf_ty E c.(c_ty)
   && Bool.eqb (representable (leaf_repr_of c.(c_unrepr)) F c.(c_pack)) c.(c_insub)
   && match c.(c_parsed) with
      | None => negb c.(c_insub)
      | Some pd =>
          (* the assumed law of the library, on this document *)
          bv_sim (norm render F c.(c_pack)) pd && bv_sim pd (norm render F c.(c_pack))
-         (* parsed ~_F basic *)
-         && approxb render F pd c.(c_basic)
+         (* parsed ~ basic *)
+         && approxb render (omit_none ls) pd c.(c_basic)
          (* decode *)
-         && match unpack parse_leaf (dialect_of F) c.(c_ty) pd, c.(c_dec) with
+         && match unpack parse_leaf uparse E ls pd "" c.(c_ty), c.(c_dec) with
             | Ok w, DecSame => pv_sim w c.(c_val) && pv_sim c.(c_val) w
             | Err (EMissingField n), DecMissing m => String.eqb n m
             | _, _ => false end
